@@ -105,7 +105,9 @@ def _opaque(name, args):
     equal results, different applications almost surely differ."""
     import hashlib
 
-    h = hashlib.sha256((name + "|" + "|".join(str(a) for a in args)).encode()).digest()
+    P = (1 << 61) - 1
+    key = "|".join(f"{getattr(a, 'numerator', a) % P}/{getattr(a, 'denominator', 1) % P}" for a in args)
+    h = hashlib.sha256((name + "|" + key).encode()).digest()
     return Fraction(int.from_bytes(h[:6], "big") % 1000003 + 1, 997)
 
 
@@ -138,6 +140,8 @@ class ExactDomain:
         return -a
 
     def store(self, v, typ):
+        if isinstance(v, Fraction) and v.numerator.bit_length() > 3000:
+            raise InterpLimit()  # values exploded (repeated squaring): skip, never a verdict
         return v
 
     def extern(self, name, args, typ):
